@@ -11,6 +11,9 @@
  *
  * script line:  <id> TAB <argv, space separated> TAB <presets> TAB <events, comma separated>
  *   event  D<hex> datagram for recv()      C<hex> CAN frame for read() on the CAN socket
+ *          E<hex> datagram that poll() reports although a timer expiry is pending (the timer stays pending)
+ *          B<hex> datagram that poll() reports together with the pending timer expiry (both descriptors ready)
+ *          (D: pending timer expiries are delivered before the datagram)
  *          Dx<count>[/<off>.<width>.<delta>]*:<hex>   the datagram <count> times; before the i-th delivery the
  *          big-endian number of <width> bytes at <off> is advanced by i*<delta> (sequence numbers, timestamps).
  *          Only the first three and the last two deliveries of a repeated event are logged.
@@ -148,7 +151,10 @@ int vt_timerfd_settime(int fd, int flags, const struct itimerspec* nv, struct it
     return 0;
 }
 int vt_clock_gettime(clockid_t id, struct timespec* ts) { (void)id; ts->tv_sec = 1700000000; ts->tv_nsec = 123456789; return 0; }
-unsigned vt_sleep(unsigned s) { (void)s; return 0; }
+/* horizon for programs that send on their own and sleep in between (preset "sleeps=<n>"): the script ends at the n-th sleep */
+static int g_sleep_budget = -1;
+static void end_of_script(void);
+unsigned vt_sleep(unsigned s) { (void)s; if (g_sleep_budget >= 0 && --g_sleep_budget < 0) end_of_script(); return 0; }
 
 ssize_t vt_recv(int fd, void* buf, size_t n, int flags)
 {
@@ -170,7 +176,14 @@ int vt_poll(struct pollfd* fds, nfds_t nfds, int timeout)
     (void)timeout;
     SP_PROBE();
     for (nfds_t i = 0; i < nfds; i++) fds[i].revents = 0;
-    if (g_timer_armed) {
+    char kind = have_event() ? g_ev[g_pos].kind : 'D';
+    if (g_timer_armed && kind == 'B') {
+        int n = 0;
+        for (nfds_t i = 0; i < nfds; i++) { fds[i].revents = POLLIN; n++; }
+        elog("POLL both;");
+        return n;
+    }
+    if (g_timer_armed && kind != 'E') {
         for (nfds_t i = 0; i < nfds; i++) if (fds[i].fd == g_timer_fd) { fds[i].revents = POLLIN; return 1; }
     }
     if (!have_event()) end_of_script();
@@ -183,6 +196,7 @@ ssize_t vt_read(int fd, void* buf, size_t n)
 {
     if (fd == g_timer_fd) {
         uint64_t one = 1;
+        if (!g_timer_armed) elog("TIMERBLOCK;");       /* a real timerfd read blocks here until the timer is armed again: the receive loop is stuck */
         g_timer_armed = g_timer_periodic && --g_expiry_budget > 0;
         memcpy(buf, &one, n < 8 ? n : 8);
         elog("EXPIRY;");
@@ -270,6 +284,7 @@ int main(int argc, char** argv)
             static char evcopy[2000000];
             strcpy(evcopy, events);
             parse_events(evcopy);
+            { const char* sl = strstr(presets, "sleeps="); if (sl) g_sleep_budget = atoi(sl + 7); }
             vt_presets(presets);
             int rc = ex_main(ac, av);
             fflush(stdout);
